@@ -186,6 +186,13 @@ func (thisListener *GruleV3ParserListener) ExitRuleEntry(ctx *grulev3.RuleEntryC
 
 		return
 	}
+	if start, stop := ctx.GetStart(), ctx.GetStop(); start != nil && stop != nil && thisListener.ErrorCallback != nil &&
+		thisListener.ErrorCallback.HasSyntaxErrorBetween(start.GetLine(), start.GetColumn(), stop.GetLine(), stop.GetColumn()) {
+		// the parser reported a syntax error inside this rule and recovered without an error node (for instance
+		// 'X = ;'): the entry is damaged - it would fail when it fires - and is not added
+
+		return
+	}
 	err := entryReceiver.ReceiveRuleEntry(entry)
 	if err != nil {
 		thisListener.ErrorCallback.AddError(err)
